@@ -1,6 +1,7 @@
 package props
 
 import (
+	"go/token"
 	"fmt"
 	"go/ast"
 	"go/types"
@@ -125,7 +126,21 @@ func checkLimitLiteral(c *core.Ctx, p *core.Program, fn *core.FuncRef, lit *ast.
 	for _, a := range []string{"", "N", "F", "NN", "NF", "NNN", "NNF"} {
 		scenarios = append(scenarios, a)
 	}
-	isLimit := func(x string) bool { return strings.Contains(strings.ToLower(x), "limit") }
+	// which operand of a comparison is the limit: its text names the limit, or it is a variable of the enclosing
+	// function that (through up to three single assignments) was computed from something that does
+	limitVars := limitDerivedVars(fn)
+	isLimit := func(x string) bool {
+		lx := strings.ToLower(x)
+		if strings.Contains(lx, "limit") {
+			return true
+		}
+		for v := range limitVars {
+			if regexp.MustCompile(`(^|[^A-Za-z0-9_])` + regexp.QuoteMeta(v) + `($|[^A-Za-z0-9_])`).MatchString(x) {
+				return true
+			}
+		}
+		return false
+	}
 	for _, sc := range scenarios {
 		sc := sc
 		in := newInterp(p, fn)
@@ -359,4 +374,37 @@ func checkNegativeLimit(c *core.Ctx, ids map[string]int64) {
 	}
 	c.Floor("LIMNEG", 2, "Limit.Run and OrderSensitiveTransform.Run")
 	_ = n
+}
+
+// limitDerivedVars: local variables of fn whose (single) defining expression mentions the limit, transitively.
+func limitDerivedVars(fn *core.FuncRef) map[string]bool {
+	out := map[string]bool{}
+	for round := 0; round < 3; round++ {
+		ast.Inspect(fn.Decl.Body, func(n ast.Node) bool {
+			as, ok := n.(*ast.AssignStmt)
+			if !ok || as.Tok != token.DEFINE {
+				return true
+			}
+			rhs := ""
+			for _, r := range as.Rhs {
+				rhs += " " + core.ExprStr(r)
+			}
+			derived := strings.Contains(strings.ToLower(rhs), "limit")
+			for v := range out {
+				if regexp.MustCompile(`(^|[^A-Za-z0-9_])` + regexp.QuoteMeta(v) + `($|[^A-Za-z0-9_])`).MatchString(rhs) {
+					derived = true
+				}
+			}
+			if !derived {
+				return true
+			}
+			for _, l := range as.Lhs {
+				if id, ok := l.(*ast.Ident); ok && id.Name != "_" && id.Name != "err" {
+					out[id.Name] = true
+				}
+			}
+			return true
+		})
+	}
+	return out
 }
